@@ -471,7 +471,7 @@ def run_check(chk, failed, which):
     project = project_c11 if which == 11 else project_c12
     bias = None if which == 11 else "topics"
     n = (5000 if which == 11 else 4000) if not chk.thorough else 150000
-    n_stall = 48 if not chk.thorough else 800
+    n_stall = 96 if not chk.thorough else 1000
     n_wire = (40 if which == 11 else 24) if not chk.thorough else 600
     stall_p = (0.25, 0.5) if which == 11 else (0.6, 0.15)     # (p of sd, p of su) per cycle
     cases, tags = [], []
